@@ -1684,14 +1684,17 @@ func (x *Exec) loopRule(fr *Frame, hdr *ssa.BasicBlock, ord int, back bool, st *
 		for name := range modAllowed {
 			delete(arrays, name)
 		}
-	}
-	x.havoc(st, points)
-	if modAllowed != nil {
-		modHead = map[string]*Term{}
-		for name := range modAllowed {
-			modHead[name] = st.heap[name]
+		// every other heap array the body may write is written at addresses allocated after loop entry only
+		// (checked at the back edge with an empty allowed set)
+		for name, srt := range arrays {
+			if srt.Kind == SArray && srt.Idx.Kind == SInt && name != "G|world" && !strings.HasPrefix(name, "S|") {
+				x.addFreshOnly(map[string]*Sort{name: srt})
+				delete(arrays, name)
+				modAllowed[name] = nil
+			}
 		}
 	}
+	x.havoc(st, points)
 	// arrays only written at addresses allocated after loop entry: havoc with a frame for older addresses
 	topAtEntry := st.heaptop
 	for _, nm := range sortedKeys(x.freshOnly) {
@@ -1700,6 +1703,7 @@ func (x *Exec) loopRule(fr *Frame, hdr *ssa.BasicBlock, ord int, back bool, st *
 		}
 		srt := x.freshOnly[nm]
 		old := st.arr(nm, srt)
+		registerArrSort(nm, srt)
 		nw := Const(freshName(nm), srt)
 		x.pendingTop = append(x.pendingTop, nw.Name)
 		a := Var(freshName("fa"), IntS)
@@ -1716,7 +1720,14 @@ func (x *Exec) loopRule(fr *Frame, hdr *ssa.BasicBlock, ord int, back bool, st *
 	sort.Strings(names)
 	for _, n := range names {
 		st.heap[n] = Const(freshName(n), arrays[n])
+		registerArrSort(n, arrays[n])
 		x.pendingTop = append(x.pendingTop, st.heap[n].Name)
+	}
+	if modAllowed != nil {
+		modHead = map[string]*Term{}
+		for name := range modAllowed {
+			modHead[name] = st.heap[name]
+		}
 	}
 	if len(names) > 0 || len(points) > 0 {
 		st.bumpTop()
